@@ -114,3 +114,12 @@ CLAIMED["C17"] = (
  "(D11: read path and write path both start transport writes, unguarded) and is listed as a known finding keyed by the read family's call site. Does not decide interleavings relative to poll cycles.",
  COMMON_NOTE,
  "DESIGN.md section 5 C17")
+
+CLAIMED["C19"] = (
+ "taint -> sanitiser -> sink on the unsigned wire length, value identity between prepared amount / slice bound / recorded length, loop analysis of ReadNext (reachability avoiding the transport read), count-threading checks in ByteBuffer transfer functions",
+ "Static necessary-condition analysis. Decides that the length prefix is bounded by MaxPayloadLength (unsigned) before conversion and before every buffer operation, the in-sync structure of "
+ "frame.Codec.Decode/Encode/resetDecode, that ReadNext reads from the transport between two Decode attempts and only returns non-NeedMore or transport errors, that an incomplete payload reserves room, "
+ "and that AsyncWriteTo/WriteTo/ReadFrom/AsyncReadFrom move exactly the counts reported (AsyncWriteAll, consume n on success, resume at si+written). Exactly-once completion of AsyncReadNext/AsyncWriteNext "
+ "is decided by the shared engine under C17-R2. Does not decide equality of payload sequences.",
+ COMMON_NOTE,
+ "DESIGN.md section 5 C19")
